@@ -25,6 +25,7 @@ ex._LICENSING = NativeLicensing(ex._LICENSING)
 NPATHS = int(PARAMS.get("npaths", 2))
 EXTS = [".py", ".xyz", ".json", ".png"]  # recognised, unrecognised, uncommentable, binary
 OUTCOMES = ["ok", "CommentCreateError", "MissingReuseInfoError"]
+FORCED = PARAMS.get("forced_style", "python")  # the --style value when MODE == "style"
 MODE = PARAMS.get("mode", "none")  # which of the mutually exclusive style options is given
 # none | style | force_dot_license | fallback_dot_license | skip_unrecognised
 LINES = PARAMS.get("lines", "none")  # none | single | multi
@@ -154,7 +155,7 @@ def run_annotate(e0, o0, s0, e1, o1, s1, skip_existing, no_replace):
                 (ex._LICENSING.parse("MIT"),),
                 (),
                 (),
-                "python" if MODE == "style" else None,
+                FORCED if MODE == "style" else None,
                 None,
                 None,
                 True,
@@ -190,8 +191,26 @@ def story(*a):
     usage = False
     if MODE == "none" and any(ext == ".xyz" and not sib for ext, _o, sib in specs):
         usage = True  # unrecognised type and no option chosen -> usage error before anything is touched
-    if LINES == "single" and MODE != "style" and False:
-        usage = True
+    if LINES != "none":
+        # --single-line / --multi-line must be supported by the style that will be USED for each path:
+        # the forced one if --style is given, else the one the (possibly .license) path maps to
+        import reuse.comment as _cm
+
+        for ext, _o, sib in specs:
+            if MODE == "style":
+                st = _cm.NAME_STYLE_MAP[FORCED]
+            elif sib:
+                st = _cm.EmptyCommentStyle
+            else:
+                st = {".py": _cm.PythonCommentStyle, ".xyz": None, ".json": _cm.UncommentableCommentStyle, ".png": None}[ext]
+                if ext == ".png":
+                    st = _cm.get_comment_style("x.png")
+            if st is None:
+                continue
+            if LINES == "single" and not st.can_handle_single():
+                usage = True
+            if LINES == "multi" and not st.can_handle_multi():
+                usage = True
     if usage or code == "usage":
         if before != after:
             return "a usage error was raised after the tree had been touched", specs, before, after, code
